@@ -2,7 +2,7 @@
 """Property dispatcher."""
 import os, subprocess, sys
 HERE = os.path.dirname(os.path.abspath(__file__))
-ENGINE_S = {"C01", "C02", "C03", "C04", "C05", "C06", "C07", "C09", "C10", "C13", "C15", "C17", "C18"}
+ENGINE_S = {"C01", "C02", "C03", "C04", "C05", "C06", "C07", "C09", "C10", "C13", "C15", "C16", "C17", "C18"}
 def main():
     prop = sys.argv[1]
     tier = sys.argv[sys.argv.index("--tier") + 1] if "--tier" in sys.argv else "quick"
